@@ -78,6 +78,31 @@ func (c *FnCtx) instr(ins ssa.Instruction) {
 		c.bind(x, c.v(x.X))
 	case *ssa.ChangeType:
 		v := c.v(x.X)
+		if ts := c.M.SortOf(x.Type()); ts != v.S && v.T != "" {
+			// conversion between two struct types with identical underlying types: rebuilt field by field
+			si, ti := c.M.Struct(v.S), c.M.Struct(ts)
+			if si != nil && ti != nil && len(si.Fields) == len(ti.Fields) {
+				same := true
+				var fs []string
+				for i := range si.Fields {
+					if si.Fields[i].Sort != ti.Fields[i].Sort {
+						same = false
+					}
+					fs = append(fs, fmt.Sprintf("(%s %s)", si.Sel(i), v.T))
+				}
+				if same {
+					t := "(" + ti.Ctor() + " " + strings.Join(fs, " ") + ")"
+					if len(fs) == 0 {
+						t = ti.Ctor()
+					}
+					c.define(x, t, ts)
+					return
+				}
+			}
+			c.note("changetype between different sorts: havoc")
+			c.bind(x, c.havocVal("chgtype", x.Type()))
+			return
+		}
 		v.GT = x.Type()
 		c.bind(x, v)
 	case *ssa.Convert:
